@@ -145,6 +145,9 @@ Proof.
     destruct args as [|o [|f [|? ?]]]; try apply le_refl.
     destruct (is_func f 2); [|apply le_refl]. destruct o; try apply le_refl.
     apply le_bind; [apply merge_app_le|intros; apply le_refl].
+  - (* visit *)
+    destruct args as [|i [|f [|? ?]]]; try apply le_refl. destruct (is_func f 2); [|apply le_refl].
+    apply fold_app_le.
 Qed.
 
 Lemma run_method_le rv m args : le_res (run_method app1 rv m args) (run_method app2 rv m args).
